@@ -35,11 +35,14 @@ type c12u struct {
 
 var scriptPool = func() []templ.ComponentScript {
 	return []templ.ComponentScript{corpus.ScriptA("p"), corpus.ScriptA("q<\"&"), corpus.ScriptB(1), corpus.ScriptB(2), corpus.ScriptC(), corpus.ScriptD("x", "y"),
-		templ.JSFuncCall("alertIt", "m", 3)}
+		templ.JSFuncCall("alertIt", "m", 3),
+		// hand-built values, as the API allows; the script and the class below share an identifier
+		{Name: "widget", Function: "function widget(){return 1}", Call: "widget()", CallInline: "widget()"}}
 }
 var cssPool = func() []templ.ComponentCSSClass {
 	return []templ.ComponentCSSClass{corpus.CssA("red").(templ.ComponentCSSClass), corpus.CssA("blue").(templ.ComponentCSSClass), corpus.CssB().(templ.ComponentCSSClass),
-		corpus.CssC("10px").(templ.ComponentCSSClass), corpus.CssD().(templ.ComponentCSSClass)}
+		corpus.CssC("10px").(templ.ComponentCSSClass), corpus.CssD().(templ.ComponentCSSClass),
+		{ID: "widget", Class: templ.SafeCSS(".widget{color:blue;}")}}
 }
 
 func (it Item) toAny(u *c12u) any {
@@ -562,6 +565,9 @@ func c12World(rc *kernel.RunCtx) {
 			}
 		}
 	}
+	// one middleware value serves every request of the run, as in a real server
+	var sharedPage templ.Component
+	mw := templ.NewCSSMiddleware(http.HandlerFunc(func(w http.ResponseWriter, r *http.Request) { templ.Handler(sharedPage).ServeHTTP(w, r) }), regClasses...)
 	ext := map[*Node]*nodeExt{}
 	nctx := t.Range(1, rc.Param("max_contexts", 4), "ncontexts")
 	faultsLeft := t.Choose(2, "nfaults")
@@ -598,8 +604,9 @@ func c12World(rc *kernel.RunCtx) {
 			if c.viaMW {
 				comp := c.env.buildTracked(c.specs[0])
 				rec := newRecorder()
-				mw := templ.NewCSSMiddleware(templ.Handler(comp), regClasses...)
-				mw.ServeHTTP(parkRecorder{rec, park}, httptest.NewRequest(http.MethodGet, "/page", nil))
+				pageMW := templ.NewCSSMiddleware(templ.Handler(comp), regClasses...)
+				pageMW.CSSHandler = mw.CSSHandler // the handler state (registered classes) is the shared one
+				pageMW.ServeHTTP(parkRecorder{rec, park}, httptest.NewRequest(http.MethodGet, "/page", nil))
 				c.w.got, c.status = rec.body.Bytes(), rec.status
 				return
 			}
@@ -662,7 +669,7 @@ func c12World(rc *kernel.RunCtx) {
 	}
 	if middleware && !rc.Failed() {
 		rec := httptest.NewRecorder()
-		templ.NewCSSMiddleware(http.NotFoundHandler(), regClasses...).ServeHTTP(rec, httptest.NewRequest(http.MethodGet, "/styles/templ.css", nil))
+		mw.ServeHTTP(rec, httptest.NewRequest(http.MethodGet, "/styles/templ.css", nil))
 		sheet := rec.Body.String()
 		for _, c := range u.Css {
 			n := len(allIndex(sheet, string(c.Class)))
